@@ -61,6 +61,11 @@ def register(I):
         s = deref_all(a[0])
         if isinstance(s, SymStr):
             raise Unsupported("len of symbolic string")
+        if isinstance(s, Ser):
+            # the byte length of a serialised text is not modelled: an arbitrary small non-negative number
+            n = I.fresh("textlen")
+            I.assume(z3.And(n >= 0, n <= 100000))
+            return n
         return len(s.encode("utf-8"))
 
     @intr("std::string::String::is_empty", "std::str::<impl str>::is_empty")
